@@ -462,11 +462,56 @@ def r1_4(ctx):
         ctx.bad("R1.4", sp.module, sp.qual, norm(sp.node.body[-1], 200), "send_pending_notifications no longer pushes the whole list in order and empties it", sp.node.lineno)
 
 
+IDLING_OWNERS = {
+    "client.BaseClientHandler.do_idle": "IDLE sets it; do_done / select / unselect / bye clear it",
+}
+
+
+def r1_5(ctx):
+    """`idling` decides whether a notification is pushed at once or queued (R1.1).  Outside IDLE itself, a handler that
+    raises it temporarily (so that the EXPUNGEs of its own EXPUNGE/MOVE reach it directly) must put the saved value back on
+    every exit: a session left `idling` gets EXPUNGEs pushed in the middle of its later FETCH/STORE/SEARCH."""
+    p = ctx.p
+    n = 0
+    for fi in p.funcs_in("client"):
+        sets = [s_ for s_ in body_walk(fi.node) if isinstance(s_, ast.Assign) and norm(s_.targets[0]) == "self.idling" and isinstance(s_.value, ast.Constant) and s_.value.value is True]
+        if not sets:
+            continue
+        n += len(sets)
+        ctx.analysed(fi)
+        if fi.key in IDLING_OWNERS:
+            ctx.ok("R1.5", where(fi), f"self.idling = True: {IDLING_OWNERS[fi.key]}", nontrivial=False)
+            continue
+        par = parmap(fi)
+        for st in sets:
+            # saved = self.idling  before, and a finally of an enclosing try restores it
+            saved = [a for a in body_walk(fi.node) if isinstance(a, ast.Assign) and norm(a.value) == "self.idling" and isinstance(a.targets[0], ast.Name) and a.lineno < st.lineno]
+            cur, restored = st, False
+            while cur in par:
+                pr = par[cur]
+                if isinstance(pr, ast.Try) and cur in pr.body:
+                    for f_ in pr.finalbody:
+                        if isinstance(f_, ast.Assign) and norm(f_.targets[0]) == "self.idling" and saved and norm(f_.value) in {norm(a.targets[0]) for a in saved}:
+                            restored = True
+                cur = pr
+            if restored:
+                ctx.ok("R1.5", where(fi), f"temporary idling @{st.lineno}: saved before, restored in `finally`")
+            else:
+                ctx.bad(
+                    "R1.5", fi.module, fi.qual, "self.idling = True without restore",
+                    "the handler raises `idling` for its own notifications but does not restore the saved value in a `finally`: the session "
+                    "stays in push mode, and later EXPUNGEs of other sessions are sent in the middle of its non-UID FETCH/STORE/SEARCH",
+                    st.lineno,
+                )
+    ctx.floor("R1.5", n, 3, "sites that raise self.idling")
+
+
 def run(ctx):
     ctx.do(r1_1)
     ctx.do(r1_2)
     ctx.do(r1_3)
     ctx.do(r1_4)
+    ctx.do(r1_5)
     # shared necessary conditions decided by sibling modules (reported under this property too)
     from . import c03, c10
     ctx.do(c03.r3_1_2)
